@@ -100,7 +100,9 @@ Matches(o, r) ==
   \A s \in names :
      LET a == ProjFor(s, SpecFor(o, s))
          b == ProjFor(s, LoggedFor(r, s))
-     IN /\ IF SmallQueue(s) THEN SubBagOf(b, a) ELSE BagEq(a, b)
+        \* (a tiny queue holds at least as many messages of one step as it has room for: the
+        \* router never waits, but it does not discard what fits either)
+     IN /\ IF SmallQueue(s) /\ Len(a) > sess'[s].cap THEN SubBagOf(b, a) /\ Len(b) >= sess'[s].cap ELSE BagEq(a, b)
         /\ NoInversion(b)
 
 Check(o, r) ==
@@ -299,7 +301,8 @@ TrBurst ==
                             q == LoggedFor(r, s)
                             b == [i \in DOMAIN q |-> Blur(q[i])]
                         IN IF s \in DOMAIN sess /\ sess[s].stalled THEN b = <<>>       \* a session that does not read gets nothing now
-                           ELSE IF SmallQueue(s) THEN SubBagOf(Proj(b), Proj(a))       \* tiny queue: may lose part of a burst
+                           ELSE IF SmallQueue(s) /\ Len(Proj(a)) > sess[s].cap
+                           THEN SubBagOf(Proj(b), Proj(a)) /\ Len(Proj(b)) >= sess[s].cap   \* tiny queue: may lose part of a burst
                            ELSE BagEq(Proj(a), Proj(b))                                \* everybody else: complete (C07)
           ELSE IF r.in.how = "slow"
           THEN \* a caller that does not read for three seconds: every progressive result and the
